@@ -183,6 +183,61 @@ theorem never_panics (s : MState R) (op : Op R) : (step M s op).2 ≠ .panic := 
   | clearAll => exact hA []
   | clearRes res => exact hR res []
 
+/-! ### a generator that panics or errors during a load -/
+
+theorem loadRes_outcome (M : RuleMod R) (s : MState R) (res : String) (rules : List (Option R)) :
+    (loadRes M s res rules).2 =
+      if res = "" then .err else if rules = [] then .changed else if s.cache res = rules then .unchanged else .changed := by
+  by_cases h0 : res = ""
+  · subst h0; rw [loadRes_noRes]; simp
+  by_cases h1 : rules = []
+  · subst h1; rw [loadRes_clear h0]; simp [h0]
+  by_cases hc : s.cache res = rules
+  · rw [loadRes_unchanged h0 h1 hc]; simp [h0, h1, hc]
+  · rw [loadRes_changed h0 h1 hc]; simp [h0, h1, hc]
+
+theorem loadAll_outcome (M : RuleMod R) (s : MState R) (rules : List (Option R)) :
+    (loadAll M s rules).2 = .unchanged ∨ (loadAll M s rules).2 = .changed := by
+  by_cases h : (s.keys ++ ruleKeys M rules).all (fun k => s.cache k == proj M k rules) = true
+  · rw [loadAll_unchanged h]; exact Or.inl rfl
+  · rw [loadAll_changed h]; exact Or.inr rfl
+
+/-- **a load whose build panics installs nothing**: when a per-resource or whole-set load reports `(true, err)` because the
+    generator panicked, controllers, published rules and the raw cache are exactly as before -/
+theorem gen_panic_installs_nothing (custom : R → Bool) (s : MState R) (res : String) (rules : List (Option R)) :
+    ((loadResG M custom .panic s res rules).2 = .changedErr → (loadResG M custom .panic s res rules).1 = s) ∧
+    ((loadAllG M custom .panic s rules).2 = .changedErr → (loadAllG M custom .panic s rules).1 = s) := by
+  constructor
+  · intro h
+    unfold loadResG at h ⊢
+    split_ifs at h ⊢ with hc
+    · rfl
+    · rw [loadRes_outcome] at h; split_ifs at h
+  · intro h
+    unfold loadAllG at h ⊢
+    split_ifs at h ⊢ with hc
+    · rfl
+    · rcases loadAll_outcome (withGen M custom .panic) s rules with h' | h' <;> rw [h'] at h <;> cases h
+
+/-- **… and the identical retry takes effect** once the generator stopped failing: it is not short-circuited (reports
+    "changed") and is executed as the plain load of the same list in the state before the failed attempt -/
+theorem retry_after_panic_takes_effect (custom : R → Bool) (s : MState R) (res : String) (rules : List (Option R))
+    (h : (loadResG M custom .panic s res rules).2 = .changedErr) :
+    loadResG M custom .ok (loadResG M custom .panic s res rules).1 res rules = loadRes (withGen M custom .ok) s res rules ∧
+    (loadResG M custom .ok (loadResG M custom .panic s res rules).1 res rules).2 = .changed := by
+  have hs := (gen_panic_installs_nothing (M := M) custom s res rules).1 h
+  rw [hs]
+  have e : loadResG M custom .ok s res rules = loadRes (withGen M custom .ok) s res rules := by
+    unfold loadResG; simp
+  refine ⟨e, ?_⟩
+  rw [e, loadRes_outcome]
+  unfold loadResG at h
+  split_ifs at h with hc
+  · have := hc.2.1
+    rw [loadRes_outcome] at this
+    exact this
+  · rw [loadRes_outcome] at h; split_ifs at h
+
 /-- the property's last clause, at full strength (false on the pinned tree: see the two witnesses below) -/
 def identical_reload_unchanged_statement (M : RuleMod R) : Prop :=
   (∀ (ops : List (Op R)) (rules : List (Option R)),
@@ -231,6 +286,17 @@ theorem normalised_reload_witness :
     (loadAll (flowMod 0) (loadAll (flowMod 0) MState.init [some w]).1 [some w]).2 = .changed ∧
     (loadAll hotMod (loadAll hotMod MState.init [some h]).1 [some h]).2 = .changed ∧
     (loadRes (flowMod 0) (loadRes (flowMod 0) MState.init "f" [some w]).1 "f" [some w]).2 = .changed := by decide
+
+/-- pinned tree (`generator-error-swallowed`): when a registered generator returns an *error* for a valid rule, the load reports
+    plain success, caches the list and drops the rule; the identical retry after the generator recovered is short-circuited
+    ("unchanged") and the rule never comes into force -/
+theorem generator_error_swallowed_witness :
+    let x : FlowRule := { id := "", res := "f", tcs := 7, cb := 9, th := 2 * thQ, rel := 0, ref := "", maxQ := 0, wuPeriod := 0, wuCf := 0,
+                          statMs := 0, lowMem := 0, highMem := 0, memLow := 0, memHigh := 0 }
+    let s1 := loadResG (flowMod 0) flowCustom .fail MState.init "f" [some x]
+    let s2 := loadResG (flowMod 0) flowCustom .ok s1.1 "f" [some x]
+    s1.2 = .changed ∧ s1.1.enf "f" = [] ∧ s2.2 = .unchanged ∧ s2.1.enf "f" = [] ∧
+    (loadResG (flowMod 0) flowCustom .ok MState.init "f" [some x]).1.enf "f" = [x] := by decide
 
 /-- pinned tree: the empty per-resource load always reports "changed" -/
 theorem empty_resource_reload_witness :
